@@ -254,6 +254,30 @@ func (w *worker) runCase(cfg Cfg, name string, next func(*view) (string, bool)) 
 			post := in.snapshot()
 			orc.afterClose(c, post, in)
 			v.snap = post
+		case "silence":
+			l, ok := in.doSilence()
+			if !ok {
+				res.err = fmt.Errorf("`sess silence` needs an instance with short timeouts")
+				return res
+			}
+			line = l
+			post := in.snapshot()
+			orc.afterSilence(post, in)
+			v.snap = post
+		case "media":
+			k, _ := strconv.Atoi(f[2])
+			line = in.doMedia(k)
+			if line == "flow ?" {
+				res.envTrouble = in.envErr != ""
+				res.skipped = true
+				res.dist["media:not-probed"]++
+				return res
+			}
+			res.dist["media:"+line]++
+			orc.afterMedia(k, line)
+			post := in.snapshot()
+			orc.afterQuiet("media probe", post, in)
+			v.snap = post
 		case "frame", "response":
 			c, _ := strconv.Atoi(f[2])
 			closed, delivered := in.doNonRequest(c, f[1] == "frame")
@@ -1074,6 +1098,37 @@ func buildJobs(c *corr.Ctx) []job {
 			}
 		})
 	}
+	// every method refused by the application in every state: the session keeps working
+	{
+		names, cases := refusalSweep()
+		const per = 24
+		for start := 0; start < len(cases); start += per {
+			start := start
+			jobs = append(jobs, func(w *worker, out func(caseResult)) {
+				for i := start; i < start+per && i < len(cases); i++ {
+					r := w.runChecked(fullCfg, names[i], scripted(cases[i]))
+					r.dist["sweep:refused-by-the-application"]++
+					out(r)
+				}
+			})
+		}
+	}
+	// a second attached connection, then silence (real, short timeouts)
+	{
+		names, cases := attachSweep()
+		const per = 6
+		for start := 0; start < len(cases); start += per {
+			start := start
+			jobs = append(jobs, func(w *worker, out func(caseResult)) {
+				for i := start; i < start+per && i < len(cases); i++ {
+					r := w.runChecked(silenceCfg, names[i], scripted(cases[i]))
+					r.dist["sweep:attached-connection-then-silence"]++
+					out(r)
+				}
+			})
+		}
+	}
+
 	// timing clauses on an injected clock: no real waiting, both tiers
 	for _, sc := range clockScenarios() {
 		sc := sc
